@@ -9,7 +9,7 @@ ROOT=$(cd "$(dirname "$0")/.." && pwd)
 T=/var/tmp/fvcov; BIN=$T/debug/fvh
 LLVM=/root/.rustup/toolchains/nightly-x86_64-unknown-linux-gnu/lib/rustlib/x86_64-unknown-linux-gnu/bin
 export CARGO_NET_OFFLINE=true
-(cd $ROOT/harness && RUSTFLAGS="--cfg flexi_logger_verif -C instrument-coverage" CARGO_TARGET_DIR=$T cargo +nightly build --offline 2>&1 | tail -1)
+(cd $ROOT/harness && LLVM_PROFILE_FILE=$T/build-%p.profraw RUSTFLAGS="--cfg flexi_logger_verif -C instrument-coverage" CARGO_TARGET_DIR=$T cargo +nightly build --offline 2>&1 | tail -1)
 rm -rf $T/prof $T/run $T/report; mkdir -p $T/prof $T/run $T/report
 for p in $PROPS; do
   (
